@@ -277,9 +277,47 @@ def check(ctx):
                     f_ = repo.func('%s:%s' % (SR, c_.args[0].id), None)
                     if f_ is not None and len(f_.all_params) == len(c_.args) and any(isinstance(n, ast.For) for n in ast.walk(f_.node)):
                         cands.append(f_)
+    factory_map = None
+    if not cands:
+        # ... or built by a module-level factory that a method of KeyCalc calls: F(<args>) returning its nested row -> key function;
+        # the factory's parameters are then read as the arguments of that call
+        for meth in kcls.methods.values():
+            for c_ in ast.walk(meth.node):
+                if isinstance(c_, ast.Call) and isinstance(c_.func, ast.Name) and not c_.keywords:
+                    f_ = repo.func('%s:%s' % (SR, c_.func.id), None)
+                    if f_ is None or isinstance(f_.node, ast.Lambda) or len(f_.all_params) != len(c_.args):
+                        continue
+                    inner = [g for g in repo.functions.values() if g.parent is f_ and not isinstance(g.node, ast.Lambda)
+                             and len(g.all_params) == 1 and any(isinstance(n, ast.For) for n in ast.walk(g.node))]
+                    if len(inner) == 1 and all(isinstance(a_, ast.Name) for a_ in c_.args):
+                        cands.append(inner[0])
+                        factory_map = {p_: a_.id for p_, a_ in zip(f_.all_params, c_.args) if p_ != a_.id}
     if len(cands) != 1:
         raise AnalysisError('sort_rows: key calculator function not found')
     kc = ctx.N(cands[0])
+    if factory_map:
+        from sa.normalize import _Rename, clone, set_parents
+        from sa.loader import FuncInfo as _FI
+        n_ = _Rename(dict(factory_map)).visit(clone(kc.node))
+        ast.fix_missing_locations(n_)
+        set_parents(n_)
+        n_._parent = getattr(kc.node, '_parent', None)
+        kc = _FI(n_, kc.module, kc.qualname, kc.parent, kc.cls)
+        repo.func_of_node[id(n_)] = kc
+    # the name under which the format fragments of a format-string key are held (None for a list of names / a callable)
+    fnames = set()
+    for meth in kcls.methods.values():
+        asg = {}
+        for a_ in ast.walk(meth.node):
+            if isinstance(a_, ast.Assign) and len(a_.targets) == 1 and isinstance(a_.targets[0], ast.Name):
+                asg.setdefault(a_.targets[0].id, []).append(a_.value)
+        for k_, vs_ in asg.items():
+            if any(isinstance(v_, ast.Constant) and v_.value is None for v_ in vs_) and \
+                    any(isinstance(v_, ast.Call) and isinstance(v_.func, ast.Attribute) and v_.func.attr == 'findall' for v_ in vs_):
+                fnames.add(k_)
+    if len(fnames) != 1:
+        raise AnalysisError('sort_rows: the name holding the format fragments of the key was not found (%s)' % sorted(fnames))
+    FMT = fnames.pop()
     kident = toplevel_qualname(cands[0]) if getattr(cands[0].parent, 'cls', None) is kcls else kcls.qualname     # the calculator of KeyCalc, wherever it is written
     # fragments of the key: `ret += x` on the returned name, or `parts.append(x)` with `return ''.join(parts)`
     rets = [n for n in own_nodes(kc.node) if isinstance(n, ast.Return) and n.value is not None]
@@ -331,7 +369,7 @@ def check(ctx):
         neg_num = any((not pol_) and isinstance(t_, ast.Call) and u(t_.func) == 'isinstance' and pseudo(t_.args[0]) == enc[0][1]['_v']
                       for t_, pol_ in at_)
         # the "raw" condition: no formatter, or the bare {field} formatter - as a name bound in the loop or spelled out
-        raw_pos = any(pol_ and (isinstance(t_, ast.Name) or 'formatters' in u(t_)) and not (isinstance(t_, ast.Call)) for t_, pol_ in at_)
+        raw_pos = any(pol_ and (isinstance(t_, ast.Name) or FMT in names_in(t_)) and not (isinstance(t_, ast.Call)) for t_, pol_ in at_)
         run.check(is_num and not neg_num and raw_pos, 'NUM', where(repo, enc[0][0]), kident,
                   'encoded exactly when the field is raw (no formatter of its own) and its value is a number',
                   'the order-preserving encoding is applied to the wrong values (to non-numbers, or not to raw numeric fields): numbers are '
@@ -367,9 +405,9 @@ def check(ctx):
                 return None
             if isinstance(e_, ast.Constant):
                 return 'none' if e_.value is None else 'value'
-            if isinstance(e_, ast.Name) and e_.id == 'formatters':
+            if isinstance(e_, ast.Name) and e_.id == FMT:
                 return 'value' if case == 'format' else 'none'
-            if isinstance(e_, ast.Subscript) and isinstance(e_.value, ast.Name) and e_.value.id == 'formatters':
+            if isinstance(e_, ast.Subscript) and isinstance(e_.value, ast.Name) and e_.value.id == FMT:
                 return 'value' if case == 'format' else None
             if isinstance(e_, ast.IfExp):
                 t3 = tv(e_.test, case, d + 1)
@@ -391,8 +429,10 @@ def check(ctx):
                     if t3 is None:
                         return None
                     src = src.values[0] if t3 else src.values[1]
-                if isinstance(src, ast.Name) and src.id == 'formatters':
+                if isinstance(src, ast.Name) and src.id == FMT:
                     return 'value' if case == 'format' else None
+                if isinstance(src, ast.BinOp) and isinstance(src.op, ast.Mult) and isinstance(src.left, ast.List) and len(src.left.elts) == 1:
+                    return kind(src.left.elts[0], case, d + 1)       # [None] * len(keys)
                 if isinstance(src, ast.Call) and u(src.func) in ('itertools.repeat', 'repeat') and src.args:
                     return kind(src.args[0], case, d + 1)
             return None
